@@ -7,13 +7,13 @@ ALPHA6 = [0x00, 0x01, 0x61, 0x62, 0xFE, 0xFF]
 
 
 class VGen:
-    """value specs with a unique seed per value: g<seed>x<len>"""
+    """value specs with a unique seed per value: G<seed>x<len>"""
     def __init__(self, start=1):
         self.n = start
 
     def val(self, length):
         self.n += 1
-        return "g%dx%d" % (self.n, length)
+        return "G%dx%d" % (self.n, length)
 
 
 def rand_key(rng, alpha, maxlen):
